@@ -523,6 +523,7 @@ Plan generate_plan(const std::string& profile_in, uint64_t seed, uint64_t index)
         return false;
     };
     bool twice = strip("_twice");
+    bool faulty = strip("_faulty");
     aud = strip("_audit");
     disk = strip("_disk");
     pure = strip("_pure");
@@ -577,6 +578,21 @@ Plan generate_plan(const std::string& profile_in, uint64_t seed, uint64_t index)
     if (pure)
         p.cfg.checks |= CK_PURITY;
     p.cfg.twice = twice;
+    if (faulty)
+    {
+        // low-rate one-shot faults inside ordinary histories: a statement refused at its boundary (F1) or the second
+        // party taking the write lock between two statements (F9).  For both, a call that throws has changed nothing,
+        // so the model simply does not advance and every later check (incl. close / reload) still applies.
+        for (auto& st : p.steps)
+        {
+            if (st.op == "reload" || st.op == "clock" || !r.chance(1, 6))
+                continue;
+            st.fault.kind = r.chance(1, 2) ? FK_STMT : FK_LOCK;
+            st.fault.pos = (int64_t)r.below(r.chance(1, 2) ? 4 : 14);
+            st.fault.code = 5;  // SQLITE_BUSY
+            st.fault.role = (p.cfg.schema < 11 && r.chance(1, 2)) ? FR_PDB : FR_MDB;
+        }
+    }
     if (aud)
     {
         p.cfg.on_disk = true;
